@@ -1547,6 +1547,8 @@ def _subspaces_from_indices(
 
     """
     subspace_indices = np.array(subspace_indices)
+    if np.any(subspace_indices < 0):
+        raise ValueError("`subspace_indices` must be non-negative integers.")
     dim = len(subspace_indices)
     eigvecs = sparse.csr_array(sparse.identity(dim, dtype=int, format="csr"))
     # Canonical basis vectors for each subspace
